@@ -228,13 +228,13 @@ def gen_lib(rng, kind, name, flags):
                 'undef_calls': rng.choice([0, 0, 1, 3, 6, 30]),
                 'first_delay': rng.choice([0.0, 0.0, 0.25, 0.65, 1.15, 3.3]),
                 'interval': 0.13, 'T': gen_T(rng), 'initdef': rng.random() < 0.55,
-                'on_output': []}
+                'on_output': [], **_gen_idv(rng)}
     if kind == 'initasync':
         T = gen_T(rng)
         return {'kind': 'initasync', 'name': name, 'T': T, 'd': gen_d(rng, T),
                 'initdef': rng.random() < 0.5,
                 'result': wchoice(rng, [('ok', 7), ('undef', 1), ('raise', 1.5)]),
-                'dest': None, 'filter': rng.random() < 0.5}
+                'dest': None, 'filter': rng.random() < 0.5, **_gen_idv(rng)}
     if kind == 'timer':
         b = {'kind': 'timer', 'name': name, 'initdef': rng.choice([None, None, 'on']),
              'persist': None}
@@ -828,7 +828,7 @@ def build(ctx, plan, order, storage):
             elif kind == 'vpoll':
                 kw = {}
                 if b.get('initdef'):
-                    kw['initdef'] = f"initdef:{name}"
+                    kw['initdef'] = _idv(b, name)
                 if b.get('on_output'):
                     kw['on_output'] = put_events(b['on_output'])
                 blk = edzed.ValuePoll(name, func=mk_vpfunc(b), interval=b['interval'],
@@ -836,7 +836,9 @@ def build(ctx, plan, order, storage):
             elif kind == 'initasync':
                 kw = {}
                 if b.get('initdef'):
-                    kw['initdef'] = f"initdef:{name}"
+                    kw['initdef'] = _idv(b, name)
+                    if 'initdef_val' in b:
+                        ctx.run.fired('reach:falsy_initdef')
                 if b.get('dest'):
                     need(b['dest'], ('probe', 'input'))
                     filt = None
@@ -1112,6 +1114,17 @@ def run_perm(plan, order, pidx):
         run.close()
 
 
+def _gen_idv(rng):
+    """A third of the initdef values of ValuePoll/InitAsync are falsy (valid outputs all the same)."""
+    if rng.random() < 0.35:
+        return {'initdef_val': rng.choice([0, False, '', 0.0])}
+    return {}
+
+
+def _idv(b, name):
+    return b['initdef_val'] if 'initdef_val' in b else f"initdef:{name}"
+
+
 def check_library_outputs(run, ctx, plan, made, label):
     """(d) outputs of library blocks when wait_init() has just returned normally."""
     for b in plan['blocks']:
@@ -1120,7 +1133,7 @@ def check_library_outputs(run, ctx, plan, made, label):
         if b['kind'] == 'vpoll':
             want = ctx.vp_last.get(name)
             if want is None:
-                want = f"initdef:{name}" if b.get('initdef') else None
+                want = _idv(b, name) if b.get('initdef') else None
                 if want is not None:
                     run.fired('reach:vpoll_initdef_after_timeout')
             else:
@@ -1135,9 +1148,9 @@ def check_library_outputs(run, ctx, plan, made, label):
                 want = f"res:{name}"
                 run.fired('reach:initasync_result')
             else:
-                want = f"initdef:{name}" if b.get('initdef') else None
+                want = _idv(b, name) if b.get('initdef') else None
                 run.fired('reach:initasync_failed')
-            if blk.output != want:
+            if blk.output != want or type(blk.output) is not type(want):
                 run.violate('C05/source/initasync',
                             f"{name}: output {blk.output!r} when wait_init() returned ({label}); "
                             f"coroutine outcome {res}, expected {want!r}")
